@@ -4,7 +4,7 @@ CHECK = {
     "harness": "c16_window_stats.cpp",
     "srcs": MONITORING,   # OnlineAverage.cpp, OnlineVariance.cpp (+ RateMonitoring.cpp, unused here); the ring is header-only
     "flavours": ["asan"],
-    "quick": {"shards": 4, "timeout": 600},
+    "quick": {"shards": 8, "timeout": 600},
     "thorough": {"shards": 16, "timeout": 3600},
     "required_categories": ["average", "variance", "ring", "exhaustive_small_scope", "exhaustive_average",
                             "exhaustive_variance", "exhaustive_ring", "ctor_then_setWindowSize",
